@@ -239,7 +239,7 @@ func (in *Interp) runPath(h *Harness, cfg *RunConfig, item *WorkItem, res *pathR
 					outcome.Msg = r.msg
 				case targetPanic:
 					outcome.Kind = "panic"
-					outcome.Msg = in.panicString(nil, r.v)
+					outcome.Msg = in.panicString(nil, r.v) + " [at " + in.lastPanicSite + "]"
 				case blockedPanic:
 					outcome.Kind = "blocked"
 					outcome.Msg = r.why
